@@ -494,9 +494,9 @@ check(
           "PartUUIDs/ReadTask), undecodable block then close, 1-3 surplus header blocks}. Distinct = hash of (scenario, fault, "
           "schedule). Non-trivial = the fault took effect and both the sender and the receiver ran after gating started."),
     quick=[unit("client", "^TestC04FailedQuery", checks=15000, timeout=900),
-           unit("client", "^TestC04ChattyServer", checks=2000, timeout=900)],
+           unit("client", "^TestC04(ChattyServer|ExceptionWhilePeerNotReading)", checks=2000, timeout=900)],
     thorough=[unit("client", "^TestC04FailedQuery", checks=80000, timeout=8000, shards=16),
-              unit("client", "^TestC04ChattyServer", checks=20000, timeout=8000, shards=4)],
+              unit("client", "^TestC04(ChattyServer|ExceptionWhilePeerNotReading)", checks=20000, timeout=8000, shards=4)],
     manifest=dict(
         text="Fault enumeration over scenarios x fault kinds x fault positions x gate-level schedules with the oracle: Do "
              "returns within readTimeout x (packets+3) + 3s of virtual time; then either the client is closed (Close was called, "
@@ -611,7 +611,7 @@ ADDED = {
            "earlier exchange on the same client, a context with a far deadline. Exception texts of 131071-230000 bytes. Progress packets without a delta, a quarter of the clients instrumented, LowCardinality(String) columns of 257/300 distinct values per block; which error a call with a failed callback reports is counted, not asserted. Unit TestC03ExceptionInsteadOfColumnInfo (20000 INSERTs answered by an exception instead of the column description; the schedule is the runtime's).",
     "C04": "Also: fault kinds reset (reads and all later writes fail), bad-input (the encoder rejects the caller's columns after "
            "the query went out), callback errors that wrap a *ch.Exception; 0-2 earlier exception queries on the same client; "
-           "a Ping with a cancelled context before the follow-up. Streaming callbacks that wait on their context (no further batch once the failure is on its way); exception packets cut at any byte of a three-element chain. Gated scenarios at lower revisions on either side; unit TestC04ChattyServerSenderFailure (the sender fails while the server streams packets faster than the read timeout). Silent servers and clients without a read timeout in the chatty-server unit.",
+           "a Ping with a cancelled context before the follow-up. Streaming callbacks that wait on their context (no further batch once the failure is on its way); exception packets cut at any byte of a three-element chain. Gated scenarios at lower revisions on either side; unit TestC04ChattyServerSenderFailure (the sender fails while the server streams packets faster than the read timeout). Silent servers and clients without a read timeout in the chatty-server unit. Unit TestC04ExceptionWhilePeerNotReading (the server reports an exception and stops reading while the sender's write is in flight).",
     "C05": "Also: blocks spread over 2-4 frames (and empty frames in between) with a later frame altered, decoded through "
            "proto.Reader - the error must still carry the CorruptedDataErr; ZSTD frames whose inner content size exceeds the limit. Client unit TestC05ClientProducedFrames: compressed connections with large incompressible values, every frame written must verify and decompress to the block encoded.",
     "C06": "Also: pair mutations (two structural fields near the caps at once), decoding into reused targets, hostile type strings "
